@@ -1,4 +1,290 @@
-/-! Line-protocol driver for property C08 (stub until the model exists). -/
+import CprocVerif.Model.AbiDesc
+import CprocVerif.Spec.QbeLayout
+
+/-! Line-protocol driver for property C08 (aggregate descriptors, signatures, call sites).
+
+One output line per input line.  Tokens are separated by single spaces.
+
+```
+type   := bool|char|schar|uchar|short|ushort|int|uint|long|ulong|llong|ullong|float|double|ldouble
+        | e:<basic>                enum with that underlying type
+        | ptr                      any pointer
+        | V                        `__builtin_va_list` of the target
+        | B<size>:<align>:<0|1>    member-less struct object of targ.c (1: it is targ->typevalist)
+        | A <len|?> type           array
+        | S { field* } | SP { field* } | U { field* } | UP { field* }
+field  := m <name|-> <align> type  | b <name|-> <width> type        (as in drv_c06)
+qty    := b|h|w|l|s|d | S( (qty n)* ) | U( (A( (qty n)* ))* ) | O<align>:<size>
+fld    := <offset>:<size>:<i|f|o>
+cls    := b|h|w|l|s|d | ub|sb|uh|sh | :<qty> | ...
+```
+* `type <target> <type>` → `ok <qty> | <qsize> <qalign> | <fld>* | <csize> <calign> | <fld>* | <fld>* | <0|1> | <class>*`
+     model descriptor; QBE's reading of it; the C type: size, alignment, flattened fields, the
+     same with bit-field units merged; `FieldsEquiv` (bytes below the larger size); the excluded
+     classes the type falls into (`Spec/QbeLayout.classes`);
+     `fatal` / `error <kind>` when the model says the compiler dies / rejects the type
+* `qinfo <qty>` → `<size> <align> | <fld>*`                          (Spec/QbeLayout only)
+* `func <target> <0|1 variadic> <ret type|void> ; <param type> ; …`
+     → `ok <cls|-> ; <cls> ; … [; ...] | <abi cls|-> ; <abi cls> ; …`   (model | spec)
+* `call <target> <0|1> <ret|void> ; <param> ; … | <arg type> ; …`
+     → `ok <cls|-> ; <cls or ...> ; … | <abi cls|-> ; <abi cls or ...> ; …`
+* `vaarg <target> <type>` → `ok <cls>` / `error`
+* `valist <target>` → `<kind> <size> <align> | <kind> <size> <align>`   (targ.c | psABI)
+-/
+
+open CprocVerif CprocVerif.Layout CprocVerif.AbiDesc CprocVerif.QbeLayout CprocVerif.Types
+
+def basicOf (s : String) : Option Basic :=
+  Basic.all.find? fun b => (b.var.drop 4).toString == s
+
+def targetRow (t : String) : Option Gen.Targets.Row := Gen.Targets.table.find? (·.name == t)
+
+def abiTarget (t : String) : Abi.Target :=
+  if t == "aarch64" then Abi.aarch64 else if t == "riscv64" then Abi.riscv64 else Abi.x86_64
+
+mutual
+  partial def parseType (tg : String) : List String → Option (AType × List String)
+    | [] => none
+    | tok :: rest =>
+      if tok == "A" then
+        match rest with
+        | l :: rest' =>
+          let len : Option (Option Nat) := if l == "?" then some none else l.toNat?.map some
+          match len, parseType tg rest' with
+          | some len, some (e, rest'') => some (.array e len, rest'')
+          | _, _ => none
+        | [] => none
+      else if tok == "S" || tok == "SP" || tok == "U" || tok == "UP" then
+        match rest with
+        | "{" :: rest' =>
+          match parseFields tg rest' with
+          | some (fs, rest'') => some (.su (tok == "U" || tok == "UP") (tok == "SP" || tok == "UP") fs, rest'')
+          | none => none
+        | _ => none
+      else if tok == "ptr" then some (.sc .ptr, rest)
+      else if tok == "V" then (valist tg).map (·, rest)
+      else if tok.startsWith "B" then
+        match (tok.drop 1).toString.splitOn ":" with
+        | [s, a, d] =>
+          match s.toNat?, a.toNat? with
+          | some s, some a => some (.blob s a (d == "1"), rest)
+          | _, _ => none
+        | _ => none
+      else if tok.startsWith "e:" then
+        (basicOf (tok.drop 2).toString).map fun b => (.sc (.arith (.enum 0 b)), rest)
+      else (basicOf tok).map fun b => (.sc (.arith (.basic b)), rest)
+  partial def parseFields (tg : String) : List String → Option (AFields × List String)
+    | "}" :: rest => some (.nil, rest)
+    | k :: name :: n :: rest =>
+      if k == "m" || k == "b" then
+        match n.toNat?, parseType tg rest with
+        | some n, some (ty, rest') =>
+          match parseFields tg rest' with
+          | some (fs, rest'') =>
+            let nm := if name == "-" then none else some name
+            some (if k == "m" then .cons nm ty n none fs else .cons nm ty 0 (some n) fs, rest'')
+          | none => none
+        | _, _ => none
+      else none
+    | _ => none
+end
+
+def parseWhole (tg : String) (toks : List String) : Option AType :=
+  match parseType tg toks with
+  | some (t, []) => some t
+  | _ => none
+
+def splitOnTok (sep : String) (toks : List String) : List (List String) :=
+  let rec go (cur : List String) (acc : List (List String)) : List String → List (List String)
+    | [] => (cur.reverse :: acc).reverse
+    | t :: ts => if t == sep then go [] (cur.reverse :: acc) ts else go (t :: cur) acc ts
+  go [] [] toks
+
+mutual
+  partial def showQ : QTy → String
+    | .base c => c.toString
+    | .opaque a s => s!"O{a}:{s}"
+    | .struct fs => "S( " ++ showQF fs ++ ")"
+    | .union as => "U( " ++ showQA as ++ ")"
+  partial def showQF : QFields → String
+    | .nil => ""
+    | .cons t n rest => showQ t ++ " " ++ toString n ++ " " ++ showQF rest
+  partial def showQA : QAlts → String
+    | .nil => ""
+    | .cons fs rest => "A( " ++ showQF fs ++ ") " ++ showQA rest
+end
+
+def baseOfTok (s : String) : Option Base :=
+  [Base.b, .h, .w, .l, .s, .d].find? (·.toString == s)
+
+mutual
+  partial def parseQ : List String → Option (QTy × List String)
+    | [] => none
+    | tok :: rest =>
+      if tok == "S(" then (parseQF rest).map fun (fs, r) => (.struct fs, r)
+      else if tok == "U(" then (parseQA rest).map fun (as, r) => (.union as, r)
+      else if tok.startsWith "O" then
+        match (tok.drop 1).toString.splitOn ":" with
+        | [a, s] =>
+          match a.toNat?, s.toNat? with
+          | some a, some s => some (.opaque a s, rest)
+          | _, _ => none
+        | _ => none
+      else (baseOfTok tok).map fun c => (.base c, rest)
+  partial def parseQF : List String → Option (QFields × List String)
+    | ")" :: rest => some (.nil, rest)
+    | toks =>
+      match parseQ toks with
+      | some (t, n :: rest) =>
+        match n.toNat?, parseQF rest with
+        | some n, some (fs, r) => some (.cons t n fs, r)
+        | _, _ => none
+      | _ => none
+  partial def parseQA : List String → Option (QAlts × List String)
+    | ")" :: rest => some (.nil, rest)
+    | "A(" :: rest =>
+      match parseQF rest with
+      | some (fs, r) => (parseQA r).map fun (as, r') => (.cons fs as, r')
+      | none => none
+    | _ => none
+end
+
+def showKind : QbeLayout.Kind → String
+  | .int => "i" | .flt => "f" | .opaque => "o"
+
+def showFlds (fs : List Fld) : String :=
+  " ".intercalate (fs.map fun f => s!"{f.off}:{f.size}:{showKind f.kind}")
+
+def showCls : Cls → String
+  | .base c => c.toString
+  | .agg t => ":" ++ showQ t
+
+def showAbi : AbiCls → String
+  | .base c => c.toString
+  | .sub n sg => (if sg then "s" else "u") ++ (if n == 1 then "b" else if n == 2 then "h" else "?")
+  | .agg t => ":" ++ showQ t
+
+def doType (tg : String) (toks : List String) : String :=
+  match parseWhole tg toks with
+  | none => "bad-op"
+  | some t =>
+    match Layout.tinfo (erase t) with
+    | .error e => "error " ++ e.toString
+    | .ok _ =>
+      match emittype t with
+      | none => "fatal"
+      | some q =>
+        let T := abiTarget tg
+        let i := info q
+        let c := Abi.tinfo T (erase t)
+        let fc := flattenC T false t
+        let eq := fieldsEquivB (max i.size c.size + 1) i.flds fc
+        let cl := (classes T t).eraseDups
+        s!"ok {showQ q} | {i.size} {i.align} | {showFlds i.flds} | {c.size} {c.align} | {showFlds fc} | {showFlds (flattenC T true t)} | {if eq then 1 else 0} | {" ".intercalate cl}"
+
+def doQinfo (toks : List String) : String :=
+  match parseQ toks with
+  | some (q, []) => let i := info q; s!"{i.size} {i.align} | {showFlds i.flds}"
+  | _ => "bad-op"
+
+def parseTypes (tg : String) (groups : List (List String)) : Option (List AType) :=
+  let r := groups.map (parseWhole tg)
+  if r.all Option.isSome then some (r.filterMap id) else none
+
+def parseRet (tg : String) (toks : List String) : Option (Option AType) :=
+  if toks == ["void"] then some none else (parseWhole tg toks).map some
+
+def showOpt {α} (f : α → String) : Option α → String
+  | none => "-"
+  | some a => f a
+
+def specRet (sc : Bool) (r : Option AType) : String :=
+  match r with
+  | none => "-"
+  | some t => showOpt showAbi (abiClass sc emittype t)
+
+def doFunc (tg : String) (toks : List String) : String :=
+  match targetRow tg, toks with
+  | some row, v :: rest =>
+    match splitOnTok ";" rest with
+    | rt :: ps =>
+      match parseRet tg rt, parseTypes tg ps with
+      | some ret, some params =>
+        let f : FuncTy := ⟨ret, params, v == "1"⟩
+        match emitfunc f with
+        | none => "fatal"
+        | some sg =>
+          let m := [showOpt showCls sg.ret] ++ sg.params.map showCls ++ (if sg.variadic then ["..."] else [])
+          let sp := [specRet row.signedchar ret] ++
+            (f.adjusted.map fun t => showOpt showAbi (abiClass row.signedchar emittype t)) ++
+            (if f.variadic then ["..."] else [])
+          "ok " ++ " ; ".intercalate m ++ " | " ++ " ; ".intercalate sp
+      | _, _ => "bad-op"
+    | [] => "bad-op"
+  | _, _ => "bad-op"
+
+/-- 6.5.2.2p7: named parameters take the parameter's (adjusted) type, the rest are promoted -/
+def specArgs (sc : Bool) (f : FuncTy) (args : List AType) : List String :=
+  let n := f.params.length
+  let named := (f.adjusted.zip args).map fun (p, _) => showOpt showAbi (abiClass sc emittype p)
+  let rest := (args.drop n).map fun a => showOpt showAbi (abiClass sc emittype (defaultPromote sc (decay a)))
+  named ++ (if f.variadic then ["..."] else []) ++ rest
+
+def doCall (tg : String) (toks : List String) : String :=
+  match targetRow tg, toks with
+  | some row, v :: rest =>
+    match splitOnTok "|" rest with
+    | [sigToks, argToks] =>
+      match splitOnTok ";" sigToks with
+      | rt :: ps =>
+        let argGroups := if argToks.isEmpty then [] else splitOnTok ";" argToks
+        match parseRet tg rt, parseTypes tg ps, parseTypes tg argGroups with
+        | some ret, some params, some args =>
+          let f : FuncTy := ⟨ret, params, v == "1"⟩
+          match emitcall row.signedchar f args with
+          | none => "fatal"
+          | some cs =>
+            let m := [showOpt showCls cs.ret] ++ cs.args.map (fun a => match a with | none => "..." | some c => showCls c)
+            let sp := [specRet row.signedchar ret] ++ specArgs row.signedchar f args
+            "ok " ++ " ; ".intercalate m ++ " | " ++ " ; ".intercalate sp
+        | _, _, _ => "bad-op"
+      | [] => "bad-op"
+    | _ => "bad-op"
+  | _, _ => "bad-op"
+
+def doVaarg (tg : String) (toks : List String) : String :=
+  match parseWhole tg toks with
+  | none => "bad-op"
+  | some t =>
+    match vaargClass t with
+    | some c => "ok " ++ c.toString
+    | none => "error"
+
+def doValist (tg : String) : String :=
+  match targetRow tg, psabiVaList tg with
+  | some r, some (k, s, a) => s!"{r.valistKind} {r.valistSize} {r.valistAlign} | {k} {s} {a}"
+  | _, _ => "bad-op"
+
+def step (line : String) : String :=
+  match (line.trimAscii.toString.splitOn " ").filter (· ≠ "") with
+  | "type" :: tg :: rest => doType tg rest
+  | "qinfo" :: rest => doQinfo rest
+  | "func" :: tg :: rest => doFunc tg rest
+  | "call" :: tg :: rest => doCall tg rest
+  | "vaarg" :: tg :: rest => doVaarg tg rest
+  | ["valist", tg] => doValist tg
+  | _ => "bad-op"
+
+partial def loop (stdin stdout : IO.FS.Stream) : IO Unit := do
+  let line ← stdin.getLine
+  if line.isEmpty then
+    return ()
+  stdout.putStrLn (step line)
+  loop stdin stdout
+
 def main (_args : List String) : IO UInt32 := do
-  IO.eprintln "drv_c08: no model yet"
-  return 2
+  let stdin ← IO.getStdin
+  let stdout ← IO.getStdout
+  loop stdin stdout
+  stdout.flush
+  return 0
